@@ -13,9 +13,10 @@ C semantics made explicit:
     evaluation (with short-circuit) performs *pointer* arithmetic that leaves [0,2^64) —
     undefined behaviour in C, where the compiled code need not agree with the wrap-around
     reading. The function-level correspondence compares strictly only where `_ub` is false.
-If a predicate cannot be located/parsed it is emitted as `unparsed` (a `def <name>_unparsed`
-marker and NO definition, so the dependent theorem fails to compile and the check falls
-back to correspondence + search, DESIGN R4).
+If a predicate cannot be located/parsed it is emitted as `unparsed`: a `def <name>_unparsed` marker plus a
+STUB that never accepts, so the library and driver still build; vf/checks/c06.py then does not count the
+dependent theorems as discharged, skips the function-level comparison for it and relies on the runtime
+correspondence (DESIGN R4).
 """
 import os, re, hashlib, json
 
@@ -227,33 +228,37 @@ SPECS = [
     dict(name="function_read_in_range", file="libyara/exec.c",
          rx=r"if \((offset >= block->base &&.*?sizeof\(type\))\)\s*\{", args=["base", "size", "offset", "tsize"],
          atoms={"offset": ("offset", "int"), "block->base": ("base", "int"), "block->size": ("size", "int"), "sizeof(type)": ("tsize", "int")}),
-    dict(name="arena_reloc_reject", file="libyara/arena.c",
-         rx=r"if \((reloc_ref\.buffer_id >= new_arena->num_buffers \|\|.*?)\)\s*\{", args=["buffer_id", "num_buffers", "offset", "used", "bdata"],
+    # every `if (COND) { yr_arena_release(new_arena); return ERROR_CORRUPT_FILE; }` between reading a relocation entry and the first use
+    # of its offset (memcpy(&ref, b->data + reloc_ref.offset ...)); sequential ifs = short-circuit `||` of their conditions
+    dict(name="arena_reloc_reject", file="libyara/arena.c", reject=True,
+         span_rx=r"yr_stream_read\(\s*&reloc_ref,[^;{]*\{(.*?)memcpy\(&ref, b->data \+ reloc_ref\.offset",
+         cond_rx=r"if \(((?:[^(){}]|\([^()]*\))*)\)\s*\{\s*yr_arena_release\(new_arena\);\s*return ERROR_CORRUPT_FILE;\s*\}",
+         args=["buffer_id", "num_buffers", "offset", "used", "bdata"],
          atoms={"reloc_ref.buffer_id": ("buffer_id", "int"), "new_arena->num_buffers": ("num_buffers", "int"),
                 "reloc_ref.offset": ("offset", "int"), "b->used": ("used", "int"), "sizeof(void*)": 8, "b->data": ("bdata", "int"), "NULL": 0}),
-    dict(name="macho_cmd_hdr_outside", file="libyara/modules/macho/macho.c", all_equal=2,
+    dict(name="macho_cmd_hdr_outside", reject=True, file="libyara/modules/macho/macho.c", all_equal=2,
          rx=r"if \((data \+ size < command \+ sizeof\(yr_load_command_t\))\)\s*break;", args=["data", "size", "command"],
          atoms={"data": ("data", "ptr"), "size": ("size", "int"), "command": ("command", "ptr"), "sizeof(yr_load_command_t)": 8}),
-    dict(name="macho_cmd_too_big", file="libyara/modules/macho/macho.c", all_equal=2,
+    dict(name="macho_cmd_too_big", reject=True, file="libyara/modules/macho/macho.c", all_equal=2,
          rx=r"if \((size - parsed_size < command_struct\.cmdsize)\)\s*break;", args=["size", "parsed_size", "cmdsize"],
          atoms={"size": ("size", "int"), "parsed_size": ("parsed_size", "int"), "command_struct.cmdsize": ("cmdsize", "int")}),
-    dict(name="macho_cmd_too_small", file="libyara/modules/macho/macho.c", all_equal=2,
+    dict(name="macho_cmd_too_small", reject=True, file="libyara/modules/macho/macho.c", all_equal=2,
          rx=r"if \((command_struct\.cmdsize < sizeof\(yr_load_command_t\))\)\s*break;", args=["cmdsize"],
          atoms={"command_struct.cmdsize": ("cmdsize", "int"), "sizeof(yr_load_command_t)": 8}),
-    dict(name="macho_fat_wraps", file="libyara/modules/macho/macho.c",
+    dict(name="macho_fat_wraps", reject=True, file="libyara/modules/macho/macho.c",
          rx=r"if \((arch\.offset \+ arch\.size < arch\.offset)\)\s*continue;", args=["offset", "asize"],
          atoms={"arch.offset": ("offset", "int"), "arch.size": ("asize", "int")}),
-    dict(name="macho_fat_outside", file="libyara/modules/macho/macho.c",
+    dict(name="macho_fat_outside", reject=True, file="libyara/modules/macho/macho.c",
          rx=r"if \((size < arch\.offset \+ arch\.size)\)\s*continue;", args=["size", "offset", "asize"],
          atoms={"size": ("size", "int"), "arch.offset": ("offset", "int"), "arch.size": ("asize", "int")}),
-    dict(name="macho_fat_table_outside", file="libyara/modules/macho/macho.c",
+    dict(name="macho_fat_table_outside", reject=True, file="libyara/modules/macho/macho.c",
          rx=r"if \((size < sizeof\(yr_fat_header_t\) \+ count \* fat_arch_sz)\)\s*return;", args=["size", "count", "fat_arch_sz"],
          atoms={"size": ("size", "int"), "count": ("count", "int"), "fat_arch_sz": ("fat_arch_sz", "int"), "sizeof(yr_fat_header_t)": 8}),
-    dict(name="elf_table_wraps", file="libyara/modules/elf/elf.c", all_equal=2,
+    dict(name="elf_table_wraps", reject=True, file="libyara/modules/elf/elf.c", all_equal=2,
          subst=[(r"yr_##bo##bits##toh\(elf_header->[ps]h_offset\)", "tab_offset"), (r"ELF_SIZE_OF_(PROGRAM|SECTION)_TABLE\(bits, bo, elf_header\)", "tab_size")],
          rx=r"if \((ULONG_MAX - tab_offset <\s*tab_size)\)\s*\{\s*return YR_UNDEFINED;", args=["tab_offset", "tab_size"],
          atoms={"ULONG_MAX": 0xFFFFFFFFFFFFFFFF, "tab_offset": ("tab_offset", "int"), "tab_size": ("tab_size", "int")}),
-    dict(name="elf_table_outside", file="libyara/modules/elf/elf.c", all_equal=2,
+    dict(name="elf_table_outside", reject=True, file="libyara/modules/elf/elf.c", all_equal=2,
          subst=[(r"yr_##bo##bits##toh\(elf_header->[ps]h_offset\)", "tab_offset"), (r"ELF_SIZE_OF_(PROGRAM|SECTION)_TABLE\(bits, bo, elf_header\)", "tab_size"),
                 (r"yr_##bo##16toh\(elf_header->[ps]h_entry_count\)", "entry_count")],
          rx=r"if \((tab_offset == 0 \|\|.*?entry_count == 0)\)\s*\{\s*return YR_UNDEFINED;", args=["elf_size", "tab_offset", "tab_size", "entry_count"],
@@ -295,7 +300,16 @@ def translate_one(repo, spec):
     text = _strip_cont(open(os.path.join(repo, spec["file"])).read())
     for a, b in spec.get("subst", []):
         text = re.sub(a, b, text)
-    found = re.findall(spec["rx"], text, flags=re.S)
+    if "span_rx" in spec:
+        m = re.search(spec["span_rx"], text, flags=re.S)
+        if not m:
+            raise ParseError("span not found in %s" % spec["file"])
+        conds = re.findall(spec["cond_rx"], m.group(1), flags=re.S)
+        if not conds or len(conds) != m.group(1).count("return ERROR_CORRUPT_FILE"):
+            raise ParseError("span of %s: %d conditions for %d returns" % (spec["file"], len(conds), m.group(1).count("return ERROR_CORRUPT_FILE")))
+        found = [" || ".join("(%s)" % " ".join(c.split()) for c in conds)]
+    else:
+        found = re.findall(spec["rx"], text, flags=re.S)
     if not found:
         raise ParseError("pattern not found in %s" % spec["file"])
     want = spec.get("all_equal", 1)
@@ -326,7 +340,14 @@ def run(repo, gendir):
                     "def %s_ub (%s : BitVec 64) : Bool :=\n  %s" % (n, args, lu), ""]
             status[n] = "ok"
         except (ParseError, OSError) as e:
-            out += ["/-- UNPARSED `%s` (%s): %s -/" % (n, spec["file"], str(e).replace("-/", "- /")), "def %s_unparsed : Unit := ()" % n, ""]
+            args = " ".join(spec["args"])
+            stub = "true" if spec.get("reject") else "false"
+            out += ["/-- UNPARSED `%s` (%s): %s." % (n, spec["file"], str(e).replace("-/", "- /")),
+                    "    STUB that never accepts, so that the library and the driver still build; vf/checks/c06.py does not count the dependent theorems",
+                    "    as discharged and does not compare this predicate with the compiled code (fallback: runtime correspondence, DESIGN R4). -/",
+                    "def %s (%s : BitVec 64) : Bool := %s" % (n, args, stub),
+                    "def %s_ub (%s : BitVec 64) : Bool := false" % (n, args),
+                    "def %s_unparsed : Unit := ()" % n, ""]
             status[n] = "unparsed: %s" % e
     for n, f, rx, target in ALIASES:
         try:
@@ -338,7 +359,7 @@ def run(repo, gendir):
                     "def %s (data data_size pointer size : BitVec 64) : Bool := %s data data_size pointer size" % (n, target), ""]
             status[n] = "ok"
         else:
-            out += ["def %s_unparsed : Unit := ()" % n, ""]
+            out += ["def %s (data data_size pointer size : BitVec 64) : Bool := false   -- STUB (unparsed)" % n, "def %s_unparsed : Unit := ()" % n, ""]
             status[n] = "unparsed"
     for n, f, rx in CONSTS:
         try:
@@ -347,6 +368,7 @@ def run(repo, gendir):
             out.append("def %s : Nat := %d" % (n, v))
             status[n] = v
         except Exception as e:
+            out.append("def %s : Nat := 0   -- STUB (unparsed)" % n)
             out.append("def %s_unparsed : Unit := ()" % n)
             status[n] = "unparsed"
     sites = {}
